@@ -488,7 +488,11 @@ def check_c08(exe, tier, seed, verdict):
             # ... on an object that stems from a parsed file beginning with a section header (group-less keys are then created late)
             add("%s-pmatrix-%d" % (T, j), ["rtmatrix %s pdirect %s %s" % (T, hx(d), " ".join("%x" % v for v in mv[j:j + 300]))], len(mv[j:j + 300]))
             add("%s-pmatrixf-%d" % (T, j), ["rtmatrix %s pfile %s %s" % (T, hx(d), " ".join("%x" % v for v in mv[j:j + 300]))], len(mv[j:j + 300]))
+            # ... and with every key set a second time (to a value whose decimal text is a prefix of the first one's) before reading
+            add("%s-omatrix-%d" % (T, j), ["rtmatrix %s odirect %s %s" % (T, hx(d), " ".join("%x" % v for v in mv[j:j + 300]))], len(mv[j:j + 300]))
+            add("%s-opmatrixf-%d" % (T, j), ["rtmatrix %s opfile %s %s" % (T, hx(d), " ".join("%x" % v for v in mv[j:j + 300]))], len(mv[j:j + 300]))
     add("Bool-matrix", ["rtmatrix Bool direct %s %s" % (hx(d), " ".join("%x" % rnd.getrandbits(1) for _ in range(90)))], 90)
+    add("Bool-omatrix", ["rtmatrix Bool odirect %s %s" % (hx(d), " ".join("%x" % rnd.getrandbits(1) for _ in range(90)))], 90)
     add("Bool-matrixf", ["rtmatrix Bool file %s %s" % (hx(d), " ".join("%x" % rnd.getrandbits(1) for _ in range(90)))], 90)
     if True:
         pass
@@ -535,7 +539,7 @@ def check_c08(exe, tier, seed, verdict):
     exhaustive = tier == "thorough"
     cov = {"evaluations": total + len(words) * 2, "distinct_nontrivial": sum(len(boundary_values(T)) for T in ("Int", "UInt", "Float", "Int64", "UInt64", "Double")) + len(words),
            "rule": ("exhaustive sweep of all 2^32 values of int32, uint32 and float (set + get, compared bit for bit, NaN as NaN)" if exhaustive else "strided sweep (step 4099) of the 2^32 values of int32, uint32, float + dense windows around 0, 2^31 and 2^32-1") +
-                   "; via econf_writeFile + econf_readFile for the window around 2^31 and for all boundary values; for all six numeric types: every single-bit value +-1, every power of ten +-1, the type limits, non-finite / subnormal / largest floats, and a pseudo-random sample; the same values spread over keys of three alternately used sections (names of 1, 2 and 5 characters, setter and getter each using the bare or the bracketed form in all four combinations) and group-less keys (rtmatrix: set all, then get all, directly and via file; on a fresh object and on one parsed from a file that begins with a section header); all %d case variants of the boolean words through setBool/getBool directly and via file. Summary events (type, mode, count, mismatches) validated by Trace_Typed (bad = 0, count as requested). non-trivial = boundary / single-bit / power-of-ten neighbour / special float / mixed-case spelling." % len(words),
+                   "; via econf_writeFile + econf_readFile for the window around 2^31 and for all boundary values; for all six numeric types: every single-bit value +-1, every power of ten +-1, the type limits, non-finite / subnormal / largest floats, and a pseudo-random sample; the same values spread over keys of three alternately used sections (names of 1, 2 and 5 characters, setter and getter each using the bare or the bracketed form in all four combinations) and group-less keys (rtmatrix: set all, then get all, directly and via file; on a fresh object and on one parsed from a file that begins with a section header; and with every key set a SECOND time - to v/100 resp. the integral part, whose decimal text is a prefix of the first value's - before the reading round); all %d case variants of the boolean words through setBool/getBool directly and via file. Summary events (type, mode, count, mismatches) validated by Trace_Typed (bad = 0, count as requested). non-trivial = boundary / single-bit / power-of-ten neighbour / special float / mixed-case spelling." % len(words),
            "samples": [events[0], events[-1]] if events else [], "exhaustive": exhaustive, "values_round_tripped": total, "boolean_spellings_ok": nb,
            "states": r.distinct, "trusted_base": ["gcc -O2 build of the driver for the sweeps", "TLC 1.8.0 (summary events, model lemma RoundTrip)"]}
     return cov, "exploration"
